@@ -629,9 +629,9 @@ of input lines into steps), gen/replsess.py, phases `table' and `reader' of this
   Negative controls inside TLC: ReplTabByName.cfg / ReplTabRetag.cfg (wrong roll-back designs) must violate TableAsWithout, else the
   run is a machinery error.  Corrupted field: VERIF_C13_CORRUPT=1 additionally changes one output atom of one table session and one
   expectation (`prints' -> `rejected') of one reader session: exactly those two sessions are reported.
-  Candidate repairs applied together in a worktree (hooks/candidate-C13-reader-comments.diff, -reader-escaped-newline.diff,
+  Candidate repairs applied together in a worktree (hooks/fix-C13-reader-comments.diff, -reader-escaped-newline.diff,
   -reader-brace-definition.diff): all 184 reader sessions conform (the transcription in ReplScan.tla then differs from the code: drift).
-  hooks/candidate-C13-refused-redefinition-keeps-record.diff: the hand sessions of that finding behave as specified.
+  hooks/fix-C13-refused-redefinition-keeps-record.diff: the hand sessions of that finding behave as specified.
   Not a finding (family / harness corrected instead): (1) `print << {1@SI +' / `2@SI} << newline' is a syntax error in a piled file too:
   brace *expressions* across lines are not in the family (brace blocks are); (2) a `++' comment behind a statement gives a warning
   (documentation without identifier): only `--' comments are generated, Required knows both; (3) after a rejected overload f: Boolean -> SI
